@@ -7,3 +7,15 @@ def run(cx):
     s = pa.sm2()
     K.k_ints(cx, 'K-SM2', 'gm_sm2', s.consts)
     K.k_table(cx, 'K-SM2-TABLE', 'gm_sm2', 'SM2P256_PRECOMPUTED', s.table(), 'fixed-base table [w][2j-2..2j-1] = mont(affine(j*256^w*G))')
+
+
+_run0 = run
+
+
+def run(cx):
+    from .. import rules_s as S, rules_d as D, rules_i as I
+    _run0(cx)
+    fn = cx.fn('gm_sm2::p256_ecc::<impl p256_ecc::Point>::point_add', 'S-JADD')
+    if fn is not None:
+        S.s_jadd(cx, 'S-JADD', fn, 'Point::Point')
+    D.d_deadpure(cx, 'D-DEADPURE', ('gm_sm2',), floor_calls=100)
